@@ -49,7 +49,11 @@ type CH struct {
 	ksim.Base
 	MaxEnds, MaxCommits int
 	Stale               bool
-	link                *ksim.Link
+	// DupTry narrows the alphabet to one honest INIT on chain 0 and up to two honest TRYs on chain 1 (two
+	// relayers answering the same INIT), all ACK / CONFIRM variants; connection ids are asymmetric
+	// (an untracked dangling INIT on chain 1 takes connection-0 there).
+	DupTry bool
+	link   *ksim.Link
 }
 
 var chVersions = []*connectiontypes.Version{
@@ -66,6 +70,9 @@ func (s *CH) Init(wk *ksim.Worker) *ksim.World {
 	w := wk.Root()
 	w.Ext = &chExt{}
 	l := w.SetupClients(0, 1)
+	if s.DupTry {
+		ksim.MustOK("dangling conn init", w.Tx(1, connectiontypes.NewMsgConnectionOpenInit(l.ClientB, l.ClientA, ksim.Prefix, chVersions[0], 0, ksim.Signer)))
+	}
 	w.Sync(1, l.ClientB, 0)
 	w.Sync(0, l.ClientA, 1)
 	plInitMu.Lock()
@@ -109,7 +116,17 @@ func (s *CH) Ops(w *ksim.World) []ksim.Op {
 	var ops []ksim.Op
 	for ch := 0; ch < 2; ch++ {
 		mine, theirs := s.ends(w, ch), s.ends(w, 1-ch)
-		if len(mine) < s.MaxEnds {
+		if s.DupTry {
+			if ch == 0 && len(mine) < 1 {
+				ops = append(ops, ksim.Op{K: "init", A: []int{0, 0, 0}})
+			}
+			if ch == 1 && len(mine) < 2 {
+				hs := s.heights(w, ch)
+				for ti := range theirs {
+					ops = append(ops, ksim.Op{K: "try", A: []int{ch, ti, 0, 0, hs[0]}})
+				}
+			}
+		} else if len(mine) < s.MaxEnds {
 			for vi := range chVersions {
 				for _, delay := range []int{0, 7} {
 					ops = append(ops, ksim.Op{K: "init", A: []int{ch, vi, delay}})
@@ -137,7 +154,7 @@ func (s *CH) Ops(w *ksim.World) []ksim.Op {
 			for _, ph := range s.heights(w, ch) {
 				ops = append(ops, ksim.Op{K: "confirm", A: []int{ch, mi, ph}})
 			}
-			if e.Chans < 2 {
+			if e.Chans < 2 && !s.DupTry {
 				ops = append(ops, ksim.Op{K: "chaninit", A: []int{ch, mi, 0}}, ksim.Op{K: "chaninit", A: []int{ch, mi, 1}})
 			}
 		}
@@ -149,6 +166,14 @@ func (s *CH) Ops(w *ksim.World) []ksim.Op {
 }
 
 func (s *CH) Apply(w *ksim.World, op ksim.Op) ksim.Result {
+	// an OPEN end is final: connections have no further transition, so its stored value must never change again
+	openBefore := map[int]string{}
+	for i, end := range w.Ext.(*chExt).Ends {
+		if c, found := s.conn(w, end.Chain, end.ID); found && c.State == connectiontypes.OPEN {
+			bz, _ := c.Marshal()
+			openBefore[i] = string(bz)
+		}
+	}
 	r := s.apply(w, op)
 	e := w.Ext.(*chExt)
 	for i := range e.Ends {
@@ -156,6 +181,12 @@ func (s *CH) Apply(w *ksim.World, op ksim.Op) ksim.Result {
 		cur := connectiontypes.UNINITIALIZED
 		if found {
 			cur = c.State
+		}
+		if was, ok := openBefore[i]; ok && e.Bad == "" {
+			bz, _ := c.Marshal()
+			if !found || string(bz) != was {
+				e.Bad = "OPEN->rewritten"
+			}
 		}
 		last := e.Ends[i].Last
 		if cur != last {
@@ -388,7 +419,8 @@ func runC13(c *core.C) {
 	d := core.Pick(c, 0, 1)
 	parts := []ksim.Part{
 		{Name: "1-end-per-chain/stale-proofs", Sc: &CH{MaxEnds: 1, MaxCommits: 3, Stale: true}, Cfg: ksim.Config{MaxDepth: 7 + d}, Share: 0.4},
-		{Name: "2-ends-per-chain/crossing-inits", Sc: &CH{MaxEnds: 2, MaxCommits: 2}, Cfg: ksim.Config{MaxDepth: 5 + d}, Share: 0.7},
+		{Name: "2-ends-per-chain/crossing-inits", Sc: &CH{MaxEnds: 2, MaxCommits: 2}, Cfg: ksim.Config{MaxDepth: 5 + d}, Share: 0.6},
+		{Name: "one-init/two-trys/asymmetric-ids", Sc: &CH{MaxEnds: 2, MaxCommits: 3, DupTry: true}, Cfg: ksim.Config{MaxDepth: 9 + d}, Share: 0.8},
 	}
 	ksim.RunParts(c, parts, [][]ksim.Op{
 		{{K: "init", A: []int{0, 0, 0}}, {K: "sync", A: []int{0}}, {K: "try", A: []int{1, 0, 0, 0, 5}}, {K: "sync", A: []int{1}}, {K: "ack", A: []int{0, 0, 0, 0, 5}}},
